@@ -20,7 +20,7 @@ def t_algebra():
     assert A.model_of(("+", a, ("lit", "0")))[1] is False
     assert A.model_of(("+", ("+", ("lit", "0"), a), ("lit", "1")))[1] is True
     assert A.model_of(("-", a, ("lit", "1")))[1] is False
-    assert A.render(("+", ("+", a, (":", ("+", a, b), c)), ("|", ("+", ("lit", "0"), b), c))) == "a + (a + b):c + (0 + b | c)"
+    assert A.render(("+", ("+", a, (":", ("+", a, b), c)), ("|", ("+", ("lit", "0"), b), c))) == "a + ((a + b):c) + (0 + b | c)"
 
 
 def main():
